@@ -45,6 +45,47 @@ func genFileCaseFaulted() *rapid.Generator[FileCase] {
 	})
 }
 
+// genFileCaseConcurrent: a merge-heavy history whose last ingest / flush steps
+// are carried out while a Merge of what was stored before is running (store
+// writes slowed down so that the two really overlap): files written by a flush
+// and by a merge at the same time, in one process.
+func genFileCaseConcurrent() *rapid.Generator[FileCase] {
+	return rapid.Custom(func(t *rapid.T) FileCase {
+		o := mergeHeavyOpts
+		o.Ext = false
+		o.GroupedParts = chance(t, "grouped", 30)
+		h := drawHistory(t, o)
+		for len(h.Steps) > 0 && h.Steps[len(h.Steps)-1].Op == "merge" {
+			h.Steps = h.Steps[:len(h.Steps)-1]
+		}
+		// the longest tail of ingest / flush steps, at most half the history
+		cut := len(h.Steps)
+		for cut > (len(h.Steps)+1)/2 && (h.Steps[cut-1].Op == "ingest" || h.Steps[cut-1].Op == "flush") {
+			cut--
+		}
+		var during []Step
+		for _, st := range h.Steps[cut:] {
+			during = append(during, st)
+			if st.Op == "ingest" {
+				during = append(during, Step{Op: "flush"}) // every batch becomes its own file
+			}
+		}
+		extra := rapid.IntRange(0, 6).Draw(t, "extraflushes")
+		for i := 0; i < extra && len(during) > 0; i++ {
+			src := during[unif(t, "extrasrc", len(during))]
+			if src.Op == "ingest" {
+				during = append(during, src, Step{Op: "flush"})
+			}
+		}
+		h.Steps = append(h.Steps[:cut:cut], Step{Op: "flush"}, Step{Op: "merge", During: during})
+		if chance(t, "thenmerge", 50) {
+			h.Steps = append(h.Steps, Step{Op: "merge"})
+		}
+		h.SlowWriteUs = pick(t, "slowwrite", []int{300, 1500, 4000})
+		return FileCase{Hist: h}
+	})
+}
+
 // genFileCaseShapes: extreme but legal block shapes — thousands of identical
 // or near-identical rows (compression ratios in the thousands under zstd), one
 // multi-hundred-KB row, empty-ish rows — flushed in 1-4 files and merged.
@@ -450,16 +491,23 @@ func runFileProperty(judge func(*World, []*FileInfo) *Violation) func(FileCase) 
 		if w.FaultsFired > 0 {
 			Ev.Class("case:history-fault-fired")
 		}
+		if w.MergeRetried > 0 {
+			Ev.Class("case:merge-failed-then-succeeded-on-the-same-engine")
+		}
+		if w.ConcMerges > 0 {
+			Ev.Class("case:merge-ran-while-the-caller-ingested-and-flushed")
+		}
 		return judge(w, files)
 	}
 }
 
 func TestC17(t *testing.T) {
-	Ev.Rule = "files left by generated histories (flush, limit-triggered flush, restart with another configuration, merge, external writer; mem and filesystem stores); faulted phase: the same histories with 1-3 one-shot CreateFile/Write/Close/Update failures inside (failed flushes and merges between successful ones on the same engine); shapes phase: thousands of identical or near-identical rows per block (zstd ratios in the thousands), a row of up to 1.5 MB, hundreds of empty rows, 1-4 flushes and a merge). Oracle: an independent reader written from FILE_FORMAT.md (footer framing, metadata CRC, contiguity from offset 0, region directly behind the row data with sections in block order, per-block CRC32C / compression / decompressed length / row count, distinct entry counts recomputed by the harness's own walker and tokenizers) and agreement of ReadFileMetadata / ReadDataBlockRowData / NewBlockRowScanner / ReadDataBlockBloomFilters and of the MetaStore's metadata with it; stored bytes equal the harness's own json.Marshal of each ingested row. Non-trivial: file with >=2 blocks; distinct by hash of its metadata JSON."
+	Ev.Rule = "files left by generated histories (flush, limit-triggered flush, restart with another configuration, merge, external writer; mem and filesystem stores); faulted phase: the same histories with 1-3 one-shot CreateFile/Write/Close/Update/OpenFile/Read failures inside (failed flushes and merges between successful ones on the same engine; a merge that failed is retried at once on the same engine); concurrent phase: the tail of ingest+flush steps is carried out while Merge runs on another goroutine, store writes slowed to 0.3-4 ms so both writers overlap; shapes phase: thousands of identical or near-identical rows per block (zstd ratios in the thousands), a row of up to 1.5 MB, hundreds of empty rows, 1-4 flushes and a merge). Oracle: an independent reader written from FILE_FORMAT.md (footer framing, metadata CRC, contiguity from offset 0, region directly behind the row data with sections in block order, per-block CRC32C / compression / decompressed length / row count, distinct entry counts recomputed by the harness's own walker and tokenizers) and agreement of ReadFileMetadata / ReadDataBlockRowData / NewBlockRowScanner / ReadDataBlockBloomFilters and of the MetaStore's metadata with it; stored bytes equal the harness's own json.Marshal of each ingested row. Non-trivial: file with >=2 blocks; distinct by hash of its metadata JSON."
 	Ev.Assumptions = []string{"entry counts are compared only for blocks whose rows the oracle can decide", "external-writer blocks follow FILE_FORMAT.md but may omit hashes/filters (layout checked non-strictly when a history contains external files)"}
 	runChecks(t, "files", 300, 10000, genFileCase(), runFileProperty(judgeC17))
 	runChecks(t, "faulted", 150, 5000, genFileCaseFaulted(), runFileProperty(judgeC17))
 	runChecks(t, "shapes", 30, 800, genFileCaseShapes(), runFileProperty(judgeC17))
+	runChecks(t, "concurrent", 60, 2500, genFileCaseConcurrent(), runFileProperty(judgeC17))
 }
 
 func TestC18(t *testing.T) {
@@ -468,6 +516,7 @@ func TestC18(t *testing.T) {
 	runChecks(t, "files", 300, 10000, genFileCase(), runFileProperty(judgeC18))
 	runChecks(t, "faulted", 150, 5000, genFileCaseFaulted(), runFileProperty(judgeC18))
 	runChecks(t, "shapes", 30, 800, genFileCaseShapes(), runFileProperty(judgeC18))
+	runChecks(t, "concurrent", 60, 2500, genFileCaseConcurrent(), runFileProperty(judgeC18))
 }
 
 var _ = io.EOF
